@@ -337,7 +337,9 @@ def file_entries_py(data):
     parts = b.split(b"\n")
     if parts and parts[-1] == b"":
         parts.pop()
-    if not parts or parts[0] != b"#V2":
+    if not parts:
+        return []          # an empty file holds no entries
+    if parts[0] != b"#V2":
         return None
     out = []
     for p in parts[1:]:
@@ -380,9 +382,15 @@ def c11_cases(tier, seed):
                 cnt[0] += 1
                 return [0x73, 0x30 + i, 0x2d] + [ord(ch) for ch in str(cnt[0])]
             return list(rng.choice(words))
-        ops = ["new 9 " + cfg]
-        init = rng.randint(1, min(mx, 3))
-        ops += ["add 9 " + enc([0x69, 0x30 + k]) for k in range(init)] + ["save 9"]   # the file exists from the start
+        r0 = rng.random()
+        if r0 < 0.12:
+            ops = ["put 23.56.32.a"]        # the file exists but holds no entry yet (header only)
+        elif r0 < 0.2:
+            ops = ["put -"]                 # ... or is empty
+        else:
+            ops = ["new 9 " + cfg]
+            init = rng.randint(1, min(mx, 3))
+            ops += ["add 9 " + enc([0x69, 0x30 + k]) for k in range(init)] + ["save 9"]   # the file exists from the start
         started = set()
         for _ in range(rng.randint(4, 22 if tier == "thorough" else 16)):
             i = rng.randrange(nsess)
